@@ -43,6 +43,21 @@ impl Driver {
                     SuccessorType::FallThrough => {
                         let locations = location.forward()?;
                         if locations.len() == 1 {
+                            // a lone out-edge is still only taken when it is
+                            // unconditional or its condition holds
+                            if let il::RefFunctionLocation::Edge(edge) =
+                                *locations[0].function_location()
+                            {
+                                if let Some(condition) = edge.condition() {
+                                    if !successor
+                                        .state()
+                                        .symbolize_and_eval(condition)?
+                                        .is_one()
+                                    {
+                                        return Err(Error::ExecutorNoValidLocation);
+                                    }
+                                }
+                            }
                             Ok(Driver::new(
                                 self.program.clone(),
                                 locations[0].clone().into(),
@@ -118,6 +133,16 @@ impl Driver {
             il::RefFunctionLocation::EmptyBlock(_) => {
                 let locations = location.forward()?;
                 if locations.len() == 1 {
+                    // a lone out-edge is still only taken when it is
+                    // unconditional or its condition holds
+                    if let il::RefFunctionLocation::Edge(edge) = *locations[0].function_location()
+                    {
+                        if let Some(condition) = edge.condition() {
+                            if !self.state.symbolize_and_eval(condition)?.is_one() {
+                                return Err(Error::ExecutorNoValidLocation);
+                            }
+                        }
+                    }
                     return Ok(Driver::new(
                         self.program.clone(),
                         locations[0].clone().into(),
